@@ -71,7 +71,7 @@ def gen(ctx: common.Ctx, n_hist: int, steps: tuple[int, int], explore: bool = Fa
         targets = ["main.py"] if follow == "normal" else ["."]
         yield {"fn": "vlib.tasks.daemon:run_history",
                "args": {"versions": h["versions"], "flags": flags, "targets": targets, "modes": modes,
-                        "consistency": ctx.tier == "thorough" and k % 5 == 0},
+                        "consistency": ctx.tier == "thorough" and k % 5 == 0, "mtime_back": h["mtime_back"]},
                "_k": ("x" if explore else "core") + str(k), "_ops": h["ops"], "_follow": follow, "_explore": explore}
 
 
